@@ -89,4 +89,16 @@ void use_all()
     f_sev<record>::set_severity(nitro::log::severity_level::info);
     (void)nitro::log::severity_from_string("info", nitro::log::severity_level::trace);
 }
+
+// one runtime threshold per (record type, index): three filters that differ in one template argument each
+using record_b = nitro::log::record<nitro::log::message_attribute, nitro::log::severity_attribute>;
+void thresholds_are_independent()
+{
+    nitro::log::filter::severity_filter<record, 0>::set_severity(nitro::log::severity_level::info);
+    nitro::log::filter::severity_filter<record_b, 0>::set_severity(nitro::log::severity_level::warn);
+    nitro::log::filter::severity_filter<record, 1>::set_severity(nitro::log::severity_level::error);
+    (void)nitro::log::filter::severity_filter<record, 0>::min_severity();
+    (void)nitro::log::filter::severity_filter<record_b, 0>::min_severity();
+    (void)nitro::log::filter::severity_filter<record, 1>::min_severity();
+}
 } // namespace vwit
